@@ -79,7 +79,7 @@ theorem inv_step {cfg : Cfg} {e0 : α} {s s' : St α} {o : Op α} (h : Inv cfg e
   | wclose =>
     simp only [step?, Option.some.injEq] at hs; subst hs
     exact ⟨h.tick_lo, h.tick_hi, h.deb_rng, h.deb_none, h.eval_last, h.chain⟩
-  | tick =>
+  | tick ok =>
     simp only [step?] at hs
     split at hs
     · rename_i hn
@@ -204,12 +204,12 @@ theorem phase_step {cfg : Cfg} {e0 : α} {T : Nat} {c : α} {base : List (Nat ×
   | wclose =>
     simp only [step?, Option.some.injEq] at hs; subst hs
     exact ⟨h.file_eq, hinv', h.prog, h.news⟩
-  | tick =>
+  | tick ok =>
     simp only [step?] at hs
     split at hs
     · rename_i hn
       simp only [Option.some.injEq] at hs; subst hs
-      refine phase_reconcile (s := { s with nextTick := s.nextTick + cfg.R, watcher := true }) h.file_eq ?_ hA hB h.news
+      refine phase_reconcile (s := { s with nextTick := s.nextTick + cfg.R, watcher := s.watcher || ok }) h.file_eq ?_ hA hB h.news
       exact ⟨by dsimp only; have := h.inv.tick_lo; omega, by dsimp only; omega, h.inv.deb_rng, h.inv.deb_none,
         h.inv.eval_last, h.inv.chain⟩
     · simp at hs
@@ -333,12 +333,12 @@ theorem settled_step {cfg : Cfg} {e0 : α} {c : α} {B : Nat} {s s' : St α} {o 
   | wclose =>
     simp only [step?, Option.some.injEq] at hs; subst hs
     exact ⟨h.file_eq, hinv', h.obs, h.deb_le⟩
-  | tick =>
+  | tick ok =>
     simp only [step?] at hs
     split at hs
     · simp only [Option.some.injEq] at hs; subst hs
-      have : reconcile cfg { s with nextTick := s.nextTick + cfg.R, watcher := true } =
-          { s with nextTick := s.nextTick + cfg.R, watcher := true } := reconcile_noop hfo
+      have : reconcile cfg { s with nextTick := s.nextTick + cfg.R, watcher := s.watcher || ok } =
+          { s with nextTick := s.nextTick + cfg.R, watcher := s.watcher || ok } := reconcile_noop hfo
       rw [this] at hinv' ⊢
       exact ⟨h.file_eq, hinv', h.obs, h.deb_le⟩
     · simp at hs
